@@ -29,6 +29,8 @@ def build(scene, atmosphere_inside=False):
         atm = make_atmosphere("simple_isotropic_atmosphere", tb_down=a["tb_down"], tb_up=a["tb_up"], transmittance=a["trans"])
     if atmosphere_inside and atm is not None:
         kw["atmosphere"] = atm
+    if scene.get("surface") is not None:
+        kw["surface"] = scene["surface"]
     sp = make_snowpack(thickness=scene["thickness"], microstructure_model=scene.get("microstructure", "exponential"),
                        density=scene["density"], temperature=scene["temperature"], substrate=sub,
                        interface=interface, **kw)
@@ -105,7 +107,8 @@ def random_scene(rng, nlayer=None, lossless=False, isothermal=None, substrate="r
             s["params"] = dict(specular_reflection=0.0 if q < 0.2 else 1.0 if q < 0.3 else round(float(rng.uniform(0, 1)), 3))
         sc["substrate"] = s
     if atmosphere:
-        t = round(float(rng.uniform(0.6, 1.0)), 3)
+        q = rng.random()       # the end points are legitimate: a loss-free atmosphere (1) and an opaque one (0)
+        t = 1.0 if q < 0.15 else 0.0 if q < 0.22 else round(float(rng.uniform(0.6, 1.0)), 3)
         Ta = float(isothermal) if isothermal is not None else round(float(rng.uniform(0, 300)), 1)
         sc["atmosphere"] = dict(tb_down=Ta if isothermal is not None else round(float(rng.uniform(0, 300)), 1),
                                 tb_up=(1 - t) * Ta if isothermal is not None else round(float(rng.uniform(0, 50)), 2),
